@@ -139,7 +139,8 @@ type c7op struct {
 	how    int
 	name   string
 	fields []c7field
-	front  int // 0 Logger, 1 Sugar, 2 Check+Write
+	group  string // slog derivation: open this group before the attributes
+	front  int    // 0 Logger, 1 Sugar, 2 Check+Write
 	mut    int
 	msg    string
 	task   int
@@ -430,6 +431,9 @@ func runC07(c *Ctx) {
 				op.how = 1 + g.Weighted(4, 3, 2, 1, 2, 1)
 			}
 			op.newID = len(gn)
+			if op.how == c7Slog && g.Chance(3) {
+				op.group = fmt.Sprintf("g%d", op.newID)
+			}
 			switch op.how {
 			case c7Named:
 				op.name = pick(g, "a", "svc", "", "x.y", "b")
@@ -557,12 +561,18 @@ func runC07(c *Ctx) {
 				}
 				var h slog.Handler
 				if p.sl != nil {
-					h = p.sl.Handler().WithAttrs(attrs)
+					h = p.sl.Handler()
 				} else {
 					pname, _ := w.context(p)
-					h = zapslog.NewHandler(p.lg.Core(), zapslog.WithName(pname)).WithAttrs(attrs)
+					h = zapslog.NewHandler(p.lg.Core(), zapslog.WithName(pname))
 					// a handler built from a node's core carries the core's context only
 				}
+				if op.group != "" && len(attrs) > 0 {
+					// a group that is followed by attributes is a namespace
+					h = h.WithGroup(op.group)
+					n.fields = append([]c7field{{kind: c7NS, key: op.group}}, n.fields...)
+				}
+				h = h.WithAttrs(attrs)
 				n.sl = slog.New(h)
 			}
 			w.nodes[op.newID] = n
